@@ -58,7 +58,11 @@ def gen_case(rng, tier, idx):
                       "tags": rng.sample(["t1", "t2", "t3"], rng.randint(0, 2)),
                       "links": {"kcs": ["http://x/%d" % i]} if rng.random() < 0.5 else None,
                       "mk": rng.choice(["fail", "pass", "info", "fingerprint"]),
-                      "payload": rng.choice([{}, {"n": i}, {"l": [1, "two", None]}, {"d": {"a": {"b": i}}}, {"s": "x" * rng.randint(0, 50)}])})
+                      "payload": rng.choice([{}, {"n": i}, {"l": [1, "two", None]}, {"d": {"a": {"b": i}}}, {"s": "x" * rng.randint(0, 50)}]),
+                      # content templates (rendered by formatters asked to): fine, undefined variable, type error while
+                      # rendering this very response, syntax error
+                      "content": rng.choice([None, None, None, "plain text", "value {{ n }} key {{ error_key }}", "{{ undefined_zz.attr }}",
+                                             "{{ n + 'x' }}{{ l + 1 }}{{ d + 1 }}{{ s + 1 }}", "{% if %}", "{{ l[7].x.y }}", "{{ 1 / 0 }}"])})
     return {"rules": rules, "limit": rng.choice([None, None, 300, 1000])}
 
 
@@ -72,6 +76,8 @@ def variants():
         for missing in (False, True):
             for show in SHOW_OPTS:
                 out.append((fmt, {"missing": missing, "show_rules": show}))
+    out.append(("json", {"missing": True, "show_rules": None, "render_content": True}))
+    out.append(("json", {"missing": False, "show_rules": SHOW_OPTS[-1], "render_content": True}))
     return out
 
 
@@ -180,6 +186,8 @@ def run_case(spec, ctx):
             kw = {"tags": list(rs["tags"])}
             if rs["links"]:
                 kw["links"] = rs["links"]
+            if rs.get("content"):
+                kw["content"] = rs["content"]
             r = rule(*deps, **kw)(body)
             created.append(r)
             setattr(sys.modules[mods[rs["module"]]], body.__name__, r)
@@ -204,7 +212,7 @@ def run_case(spec, ctx):
                 elif vname == "insights":
                     resp = InsightsEvaluator(br, system_id="sys-1", stream=buf).process(dict(graph))
                 elif vname == "json":
-                    with JsonFormat(br, missing=opts["missing"], show_rules=opts["show_rules"], stream=buf):
+                    with JsonFormat(br, missing=opts["missing"], show_rules=opts["show_rules"], stream=buf, render_content=opts.get("render_content", False)):
                         dr.run(dict(graph), broker=br)
                     resp = json.loads(buf.getvalue())
                 else:
